@@ -520,3 +520,104 @@ Example C16_gen_nonvacuous :
   /\ Linalg.matrix_multiply Qops [[4; 3]; [2; 1]]%Q [[1; 2]; [3; 4]; [5; 6]]%Q = GErr GeomdlError.
 Proof. repeat split; vm_compute; reflexivity. Qed.
 
+(* ---- second round (C16): add to the Require line  Gen.PreludeExt Gen.LinalgMat Proofs.GenTieLib2 Proofs.GenTieMat
+   Proofs.GenTieMatSolve Proofs.GenTieBinom Proofs.GenTieDegree (and Model.Degree for the binomial) ---- *)
+From NV Require Import Gen.PreludeExt Gen.LinalgMat Proofs.GenTieMat Proofs.GenTieMatSolve Proofs.GenTieBinom.
+
+(* [G] linalg.matrix_identity (the function under its lru_cache decorator) *)
+Theorem C16_gen_matrix_identity_R : forall n : nat, LinalgMat.matrix_identity Rops (Z.of_nat n) = GOk (LinAlg.matrix_identity Rops n).
+Proof. exact matrix_identity_tie_R. Qed.
+Print Assumptions C16_gen_matrix_identity_R.
+Theorem C16_gen_matrix_identity_Q : forall n : nat, LinalgMat.matrix_identity Qops (Z.of_nat n) = GOk (LinAlg.matrix_identity Qops n).
+Proof. exact matrix_identity_tie_Q. Qed.
+Print Assumptions C16_gen_matrix_identity_Q.
+
+(* [G] linalg.matrix_pivot: `sign` changes the shape of the result, so the translator emits one function per value;
+   pivot_out m = pivot_with (identity) m = what LinAlg.matrix_pivot returns on a square matrix (model_matrix_pivot);
+   wf: the matrix is square *)
+Theorem C16_gen_matrix_pivot_R : forall m : list (list R), is_square m = true ->
+  LinalgMat.matrix_pivot__sign_false Rops m = GOk (fst (fst (pivot_out Rops m)), snd (fst (pivot_out Rops m))).
+Proof. exact matrix_pivot_tie_R. Qed.
+Print Assumptions C16_gen_matrix_pivot_R.
+Theorem C16_gen_matrix_pivot_Q : forall m : list (list Q), is_square m = true ->
+  LinalgMat.matrix_pivot__sign_false Qops m = GOk (fst (fst (pivot_out Qops m)), snd (fst (pivot_out Qops m))).
+Proof. exact matrix_pivot_tie_Q. Qed.
+Print Assumptions C16_gen_matrix_pivot_Q.
+Theorem C16_gen_matrix_pivot_sign_R : forall m : list (list R), is_square m = true ->
+  LinalgMat.matrix_pivot__sign_true Rops m =
+  GOk (fst (fst (pivot_out Rops m)), snd (fst (pivot_out Rops m)), sign_of Rops (snd (pivot_out Rops m))).
+Proof. exact matrix_pivot_sign_tie_R. Qed.
+Print Assumptions C16_gen_matrix_pivot_sign_R.
+Theorem C16_gen_matrix_pivot_sign_Q : forall m : list (list Q), is_square m = true ->
+  LinalgMat.matrix_pivot__sign_true Qops m =
+  GOk (fst (fst (pivot_out Qops m)), snd (fst (pivot_out Qops m)), sign_of Qops (snd (pivot_out Qops m))).
+Proof. exact matrix_pivot_sign_tie_Q. Qed.
+Print Assumptions C16_gen_matrix_pivot_sign_Q.
+Theorem C16_model_matrix_pivot_R : forall m : list (list R), is_square m = true -> LinAlg.matrix_pivot Rops m = Ok (pivot_out Rops m).
+Proof. exact (model_matrix_pivot Rops). Qed.
+Print Assumptions C16_model_matrix_pivot_R.
+
+(* [G] linalg.matrix_determinant; wf: the matrix is square; every square matrix, singular or not *)
+Theorem C16_gen_matrix_determinant_R : forall m : list (list R), is_square m = true ->
+  LinalgMat.matrix_determinant Rops m = res_to_gres (fun x => x) ValueError IndexError (LinAlg.matrix_determinant Rops m).
+Proof. exact matrix_determinant_tie_R. Qed.
+Print Assumptions C16_gen_matrix_determinant_R.
+Theorem C16_gen_matrix_determinant_Q : forall m : list (list Q), is_square m = true ->
+  LinalgMat.matrix_determinant Qops m = res_to_gres (fun x => x) ValueError IndexError (LinAlg.matrix_determinant Qops m).
+Proof. exact matrix_determinant_tie_Q. Qed.
+Print Assumptions C16_gen_matrix_determinant_Q.
+
+(* [G] linalg.matrix_inverse; wf: square, non-empty, no zero on the diagonals of the LU factors of the pivoted matrix
+   (the raising case ZeroDivisionError <-> Crash is not tied, as for lu_solve) *)
+Theorem C16_gen_matrix_inverse_R : forall m L U : list (list R),
+  is_square m = true -> m <> [] -> LinAlg.doolittle Rops (fst (fst (pivot_out Rops m))) = (L, U) ->
+  (forall i, i < length m -> oeqb Rops (get2 Rops L i i) 0%R = false /\ oeqb Rops (get2 Rops U i i) 0%R = false) ->
+  LinalgMat.matrix_inverse Rops m = res_to_gres (fun x => x) ValueError IndexError (LinAlg.matrix_inverse Rops m)
+  /\ exists x, LinAlg.matrix_inverse Rops m = Ok x.
+Proof. exact matrix_inverse_tie_R. Qed.
+Print Assumptions C16_gen_matrix_inverse_R.
+Theorem C16_gen_matrix_inverse_Q : forall m L U : list (list Q),
+  is_square m = true -> m <> [] -> LinAlg.doolittle Qops (fst (fst (pivot_out Qops m))) = (L, U) ->
+  (forall i, i < length m -> oeqb Qops (get2 Qops L i i) 0%Q = false /\ oeqb Qops (get2 Qops U i i) 0%Q = false) ->
+  LinalgMat.matrix_inverse Qops m = res_to_gres (fun x => x) ValueError IndexError (LinAlg.matrix_inverse Qops m)
+  /\ exists x, LinAlg.matrix_inverse Qops m = Ok x.
+Proof. exact matrix_inverse_tie_Q. Qed.
+Print Assumptions C16_gen_matrix_inverse_Q.
+
+(* [G] linalg.lu_factor (as repaired: b := P b); wf: A square, b non-empty with len(b) = len(A), rows of b not shorter
+   than the first, no zero on the diagonals of the factors *)
+Theorem C16_gen_lu_factor_R : forall A b L U : list (list R),
+  is_square A = true -> b <> [] -> length b = length A -> (forall r, In r b -> length (hd [] b) <= length r) ->
+  LinAlg.doolittle Rops (fst (fst (pivot_out Rops A))) = (L, U) ->
+  (forall i, i < length A -> oeqb Rops (get2 Rops L i i) 0%R = false /\ oeqb Rops (get2 Rops U i i) 0%R = false) ->
+  LinalgMat.lu_factor Rops A b = res_to_gres (fun x => x) ValueError IndexError (LinAlg.lu_factor Rops A b)
+  /\ exists x, LinAlg.lu_factor Rops A b = Ok x.
+Proof. exact lu_factor_tie_R. Qed.
+Print Assumptions C16_gen_lu_factor_R.
+Theorem C16_gen_lu_factor_Q : forall A b L U : list (list Q),
+  is_square A = true -> b <> [] -> length b = length A -> (forall r, In r b -> length (hd [] b) <= length r) ->
+  LinAlg.doolittle Qops (fst (fst (pivot_out Qops A))) = (L, U) ->
+  (forall i, i < length A -> oeqb Qops (get2 Qops L i i) 0%Q = false /\ oeqb Qops (get2 Qops U i i) 0%Q = false) ->
+  LinalgMat.lu_factor Qops A b = res_to_gres (fun x => x) ValueError IndexError (LinAlg.lu_factor Qops A b)
+  /\ exists x, LinAlg.lu_factor Qops A b = Ok x.
+Proof. exact lu_factor_tie_Q. Qed.
+Print Assumptions C16_gen_lu_factor_Q.
+
+(* [G] linalg.binomial_coefficient = float(k! / ((k-i)! i!)): equal to the model of Degree.v (ofnatb (binom k i)) and to the
+   injection of the natural number of LinAlg.v, under bin_laws (exact division of injected integers; Rops and Qops) *)
+Theorem C16_gen_binomial_coefficient_R : forall k i : nat,
+  LinalgMat.binomial_coefficient Rops (Z.of_nat k) (Z.of_nat i) = GOk (Degree.ofnatb Rops (N.to_nat (LinAlg.binomial_coefficient k i))).
+Proof. exact binomial_coefficient_tie_N_R. Qed.
+Print Assumptions C16_gen_binomial_coefficient_R.
+Theorem C16_gen_binomial_coefficient_Q : forall k i : nat,
+  LinalgMat.binomial_coefficient Qops (Z.of_nat k) (Z.of_nat i) = GOk (Degree.ofnatb Qops (N.to_nat (LinAlg.binomial_coefficient k i))).
+Proof. exact binomial_coefficient_tie_N_Q. Qed.
+Print Assumptions C16_gen_binomial_coefficient_Q.
+
+Example C16_gen_nonvacuous2 :
+  LinalgMat.matrix_determinant Qops [[0; 2; 1]; [1; 1; 0]; [2; 1; 3]]%Q = GOk (-7)%Q
+  /\ LinalgMat.matrix_inverse Qops [[0; 2; 1]; [1; 1; 0]; [2; 1; 3]]%Q = GOk [[-3#7; 5#7; 1#7]; [3#7; 2#7; -1#7]; [1#7; -4#7; 2#7]]%Q
+  /\ LinalgMat.lu_factor Qops [[0; 2; 1]; [1; 1; 0]; [2; 1; 3]]%Q [[1; 2]; [3; 4]; [5; 6]]%Q = GOk [[17#7; 20#7]; [4#7; 8#7]; [-1#7; -2#7]]%Q
+  /\ LinalgMat.binomial_coefficient Qops 20 7 = GOk 77520%Q.
+Proof. repeat split; vm_compute; reflexivity. Qed.
+
